@@ -42,6 +42,13 @@ func pokeWithCustomHooks(n roman.Number) {
 	_, _ = n.MarshalText()
 	var u roman.Number
 	_ = u.UnmarshalText([]byte(ref.RomanNumeral(uint64(n), 0)))
+	// second stage: a Formatter that fails (after writing something), used once, before the defaults come back
+	roman.Formatter = func(buf []byte, n roman.Number, f roman.Format) ([]byte, error) {
+		return append(buf, "part"...), errors.New("formatter refused")
+	}
+	_ = n.String()
+	_ = fmt.Sprintf("%s %l", n, n)
+	_, _ = n.MarshalText()
 }
 
 var flagTable = []struct {
@@ -165,7 +172,7 @@ func judge(c Case, w *vkit.W) {
 			w.Fail(c, "not-canonical", fmt.Sprintf("DefaultFormatter(nil, %d, flags subset %#x) = %q, canonical numeral is %q", c.N, c.Flags, out, want))
 		}
 		w.RetainBytes(c, "DefaultFormatter(nil)", out, want) // kept as returned until the next numeral has been formatted
-		if c.N%8 == 3 || c.N < 16 { // the returned bytes belong to the caller
+		if c.N%8 == 3 || c.N < 16 {                          // the returned bytes belong to the caller
 			if o2, err := roman.DefaultFormatter(nil, n, libFlags(c.Flags)); err == nil {
 				w.Owned(c, "DefaultFormatter(nil)", o2, want, func() ([]byte, error) { return roman.DefaultFormatter(nil, n, libFlags(c.Flags)) })
 			}
